@@ -898,7 +898,7 @@ func (x *Exec) simple(fr *frame, ins ssa.Instruction, st *state) {
 		fr.env[v] = &Term{Op: "conv", Name: types.TypeString(v.Type(), nil), Args: []*Term{a}, Type: v.Type()}
 	case *ssa.MakeInterface:
 		a := x.val(fr, v.X)
-		fr.env[v] = &Term{Op: "iface", Name: short(types.TypeString(v.X.Type(), nil)), Args: []*Term{a}, Type: v.Type()}
+		fr.env[v] = &Term{Op: "iface", Name: short(types.TypeString(v.X.Type(), nil)), Args: []*Term{a}, Type: v.Type(), CType: v.X.Type()}
 	case *ssa.Extract:
 		tup := x.val(fr, v.Tuple)
 		if tup.Op == "tuple" && v.Index < len(tup.Args) {
@@ -1130,7 +1130,19 @@ func (x *Exec) call(fr *frame, b *ssa.BasicBlock, i int, pred *ssa.BasicBlock, i
 	result := func(op string) *Term {
 		return &Term{Op: op, Name: name, Args: args, Type: ins.Type()}
 	}
+	// an interface call whose receiver was boxed on this very path has one
+	// possible target: the concrete type's method (devirtualised)
+	var devirt *ssa.Function
+	var devirtType types.Type
+	if c.IsInvoke() && len(args) > 0 && args[0].Op == "iface" && args[0].CType != nil && len(args[0].Args) == 1 {
+		if m := fr.fn.Prog.LookupMethod(args[0].CType, c.Method.Pkg(), c.Method.Name()); m != nil {
+			devirt, devirtType = m, args[0].CType
+			args = append([]*Term{args[0].Args[0]}, args[1:]...)
+			name = funcName(m)
+		}
+	}
 	switch {
+	case devirt != nil:
 	case c.IsInvoke():
 		r := result("invoke")
 		fr.env[ins] = r
@@ -1164,6 +1176,14 @@ func (x *Exec) call(fr *frame, b *ssa.BasicBlock, i int, pred *ssa.BasicBlock, i
 		return false
 	}
 	callee := c.StaticCallee()
+	var argTypes []types.Type
+	if devirt != nil {
+		callee = devirt
+		argTypes = append(argTypes, devirtType)
+	}
+	for _, a := range c.Args {
+		argTypes = append(argTypes, a.Type())
+	}
 	pol := x.Policy(callee)
 	if pol == PolInline && (len(callee.Blocks) == 0 || hasLoop(callee) || fr.depth+1 > x.MaxDepth || inChain(fr, callee)) {
 		pol = PolEffect
@@ -1173,7 +1193,7 @@ func (x *Exec) call(fr *frame, b *ssa.BasicBlock, i int, pred *ssa.BasicBlock, i
 	if how, ok := recvFlip[name]; ok && len(args) > 0 {
 		switch how {
 		case "deref":
-			if pt, isPtr := c.Args[0].Type().Underlying().(*types.Pointer); isPtr {
+			if pt, isPtr := argTypes[0].Underlying().(*types.Pointer); isPtr {
 				args[0] = x.load(st, args[0], pt.Elem())
 			}
 		case "addr":
@@ -1251,9 +1271,9 @@ func (x *Exec) call(fr *frame, b *ssa.BasicBlock, i int, pred *ssa.BasicBlock, i
 			if a.Op == "alloc" {
 				if e, ok := st.mem[a.Key()]; ok {
 					deref[k] = e.Val
-				} else if k < len(c.Args) {
+				} else if k < len(argTypes) {
 					// a local struct filled field by field: its content as a composite
-					if pt, ok := c.Args[k].Type().Underlying().(*types.Pointer); ok {
+					if pt, ok := argTypes[k].Underlying().(*types.Pointer); ok {
 						if _, isStruct := pt.Elem().Underlying().(*types.Struct); isStruct {
 							if v := x.load(st, a, pt.Elem()); v.Op == "composite" {
 								deref[k] = v
@@ -1272,8 +1292,8 @@ func (x *Exec) call(fr *frame, b *ssa.BasicBlock, i int, pred *ssa.BasicBlock, i
 			x.havoc(st, args[0].Args[0])
 		}
 		for k, a := range args {
-			if k < len(c.Args) {
-				if _, ok := c.Args[k].Type().Underlying().(*types.Pointer); ok {
+			if k < len(argTypes) {
+				if _, ok := argTypes[k].Underlying().(*types.Pointer); ok {
 					if x.FieldsWritten != nil && len(callee.Blocks) > 0 {
 						if fs, precise := x.FieldsWritten(callee, k); precise {
 							for _, f := range fs {
